@@ -105,9 +105,9 @@ func Cookies(cookies []*http.Cookie) event.Option {
 func (s *httpService) Handle(ctx context.Context, conn net.Conn) error {
 	id := xid.New()
 
-	for {
-		br := bufio.NewReader(conn)
+	br := bufio.NewReader(conn)
 
+	for {
 		req, err := http.ReadRequest(br)
 		if err == io.EOF {
 			return nil
